@@ -338,7 +338,7 @@ class BayesianNetwork(DAG):
         >>> student.remove_cpds(cpd)
         """
         for cpd in cpds:
-            if isinstance(cpd, (str, int)):
+            if not isinstance(cpd, (TabularCPD, ContinuousFactor)):
                 cpd = self.get_cpds(cpd)
             self.cpds.remove(cpd)
 
